@@ -73,6 +73,7 @@ def install():
             raise RuntimeError('onsager imported before symx.loader.install()')
     sys.meta_path.insert(0, _Finder())
     _installed[0] = True
+    shim.ACTIVE[0] = True
 
 
 def install_plain():
